@@ -43,6 +43,10 @@ claimed = {
    text="Unmodified testscript code (RunT, script loop, exec, waitOrStop, context and grace computation) runs 1-3 scripts inside a synctest bubble: fake clock, stub child processes whose exit instants are placed around the interrupt and kill instants (+-1ns..30ms) and whose reaction to SIGQUIT is default / ignore / exit after a delay below, around or above the grace period, a recording T with an optional -parallel limit, seeded schedules. Oracle from the stub's signal log and the T: a foreground command still running at the interrupt instant is interrupted then; if it outlives one grace period it is killed exactly then, with interrupt->kill == kill->deadline; the script is reported failed with the timed-out message and no later line runs; subtests that started before the interrupt end by the deadline; no child is left alive or unreaped; scripts that were over before the machinery fired equal their no-deadline twin run (verdict and log).",
    note="Children and signals are stubs; the grace period is never hard-coded (only relations). Exact ties between exits and timers are not generated. Background processes that ignore interrupts are outside the statement.",
    tech="deterministic simulation: synctest fake clock + stub processes with seeded exit instants and signal reactions, timing relations read from the signal log"),
+ "C04": dict(cat="exploration", ref="3 (C04), 6 (F10)",
+   text="Differential schedule search: a batch of 2-4 generated scripts that all use the same relative names (files, directories, variables, background processes, [exec:tool] guards with per-script PATHs, stop / skip / failing lines, deferred calls; unique or colliding script file names; TestWork / WorkdirRoot / RequireUniqueNames / failing Setup / host GORACE / -parallel limit) runs under one RunT with every file, environment, atomic and once-cache operation of the parallel subtests as a scheduler decision; then each script runs alone and must give the same verdict, log, probe records (cwd, variables, tree listing with content hashes), deferred-call order and final tree. Direct invariants: the tree at Setup is exactly the archive, the environment is exactly the documented variables (+GORACE pass-through) with host variables invisible to env, expansion and child processes, deferred functions ran on every exit path in reverse order, no child alive or unreaped when its subtest ends, work directories removed or retained as requested and the private GOTMPDIR empty afterwards, distinct subtest names, no hang.",
+   note="Children are stubs. Runs as root, so read-only directories do not hinder removal. The pty (ttyin) path does real terminal I/O and is not generated. Process-global program names are made unique per plan and phase.",
+   tech="deterministic simulation: seeded scheduler over intercepted file/env/atomic operations of parallel scripts, solo-vs-batch equivalence + end-of-run invariants"),
 }
 na = {
  "C02": "pure function of the line text and the assignment history: no schedule, clock, fault or second party for a simulator to own",
